@@ -4,7 +4,7 @@
    OUTSIDE the model, exercised but not proved: durability without fsync, the kernel's actual
    rename atomicity, real thread scheduling. *)
 Require Import IP.Base.Bytes IP.Base.GoSem IP.Gen.FromGo IP.Store.Storage IP.Store.FsStore IP.Store.FsCrash.
-Require Import IP.Proofs.StoreBase IP.Proofs.StoreFs IP.Proofs.StoreCrash IP.Proofs.StoreCrashTop
+Require Import IP.Proofs.StoreBase IP.Proofs.StoreB32 IP.Proofs.StoreFs IP.Proofs.StoreCrash IP.Proofs.StoreCrashTop
                IP.Proofs.StoreSeq IP.Proofs.StoreGood IP.Proofs.StoreFsRefine IP.Proofs.StoreUsable IP.Proofs.StoreRefuted.
 From Coq Require Import List Bool.
 Import ListNotations.
@@ -17,7 +17,7 @@ Import ListNotations.
    no '/', '.', NUL and is not empty) — with the escaping function applied that is every non-empty
    key ([C18_escaping_keys]); without it the excluded keys are exactly the C17 finding. *)
 Theorem C18_atomic : forall cfg ws sched,
-  (forall k k', enc_key cfg k = enc_key cfg k' -> k = k') ->
+  (forall k k', wfb k -> wfb k' -> enc_key cfg k = enc_key cfg k' -> k = k') ->
   Forall (writer_started cfg) ws ->
   forall k p, keypath cfg k p ->
     let f := fst (exec (fs_fresh cfg) ws sched) in
@@ -25,10 +25,23 @@ Theorem C18_atomic : forall cfg ws sched,
 Proof. exact crash_atomic. Qed.
 Print Assumptions C18_atomic.
 
+(* for the repaired default configuration (base32 applied) no hypothesis about the escaping
+   function is left, and [keypath] covers every non-empty key ([C18_escaping_keys]) *)
+Theorem C18_atomic_repaired : forall base sh ws sched,
+  Forall (writer_started (repaired_cfg base sh)) ws ->
+  forall k p, keypath (repaired_cfg base sh) k p ->
+    let f := fst (exec (fs_fresh (repaired_cfg base sh)) ws sched) in
+    fs_lookup f p = None \/ exists c, fs_lookup f p = Some (File c) /\ committed ws k c.
+Proof.
+  intros base sh ws sched F k p K. apply crash_atomic; auto.
+  apply escaping_enc_inj. split. reflexivity. constructor. exact b32enc_inj. exact b32enc_alpha. exact b32enc_nonempty.
+Qed.
+Print Assumptions C18_atomic_repaired.
+
 (* the same from any state satisfying the invariant, e.g. the state left by an earlier crash;
    [C0] = what was committed before *)
 Theorem C18_atomic_from : forall cfg C0 f0 ws0 ws sched,
-  (forall k k', enc_key cfg k = enc_key cfg k' -> k = k') ->
+  (forall k k', wfb k -> wfb k' -> enc_key cfg k = enc_key cfg k' -> k = k') ->
   inv cfg C0 f0 ws0 ->
   Forall (writer_started cfg) ws ->
   forall k p, keypath cfg k p ->
@@ -38,9 +51,7 @@ Proof. exact crash_atomic_from. Qed.
 Print Assumptions C18_atomic_from.
 
 (* the invariant behind it holds in EVERY reachable state: this is what a concurrent reader sees *)
-Theorem C18_invariant : forall cfg,
-  (forall k k', enc_key cfg k = enc_key cfg k' -> k = k') ->
-  forall C sched f ws, inv cfg C f ws -> inv cfg C (fst (exec f ws sched)) (snd (exec f ws sched)).
+Theorem C18_invariant : forall cfg C sched f ws, inv cfg C f ws -> inv cfg C (fst (exec f ws sched)) (snd (exec f ws sched)).
 Proof. exact exec_inv. Qed.
 Print Assumptions C18_invariant.
 
@@ -51,30 +62,30 @@ Proof. exact staging_never_a_key_path. Qed.
 Print Assumptions C18_staging_disjoint.
 
 (* with the escaping function applied, every non-empty key is covered *)
-Theorem C18_escaping_keys : forall cfg k p, escaping cfg -> k <> [] -> key_len_ok (enc_key cfg k) ->
+Theorem C18_escaping_keys : forall cfg k p, escaping cfg -> wfb k -> k <> [] -> key_len_ok (enc_key cfg k) ->
   path_for_key cfg k = Some p -> keypath cfg k p.
 Proof. exact escaping_keypath. Qed.
 Print Assumptions C18_escaping_keys.
 
 (* the writers the theorems quantify over are what the store creates *)
 Theorem C18_writers_exist : forall cfg names kind k chunks w,
-  plain (enc_key cfg k) -> key_len_ok (enc_key cfg k) ->
+  wfb k -> plain (enc_key cfg k) -> key_len_ok (enc_key cfg k) ->
   mk_writer cfg names kind k chunks = Some w -> writer_started cfg w.
 Proof. exact mk_writer_started. Qed.
 Print Assumptions C18_writers_exist.
 
 Example C18_atomic_hyp_satisfiable :
   let cfg := pinned_cfg wbase R12 in
-  (forall k k', enc_key cfg k = enc_key cfg k' -> k = k') /\
+  (forall k k', wfb k -> wfb k' -> enc_key cfg k = enc_key cfg k' -> k = k') /\
   exists w, mk_writer cfg (fun i => stage_name (N.of_nat i)) WPut [107;101;121]%N [[1;2]%N; [3]%N] = Some w.
-Proof. split. intros k k' H. exact H. eexists. reflexivity. Qed.
+Proof. split. intros k k' _ _ H. exact H. eexists. reflexivity. Qed.
 
 (* C18_usable: after ANY such execution a new process can open the store (Init succeeds and changes
    nothing), and a put of any storable key under an unused staging name runs to success and the
    content can be read back *)
 Theorem C18_usable : forall cfg ws sched,
   path_ok (f_base cfg) ->
-  (forall k k', enc_key cfg k = enc_key cfg k' -> k = k') ->
+  (forall k k', wfb k -> wfb k' -> enc_key cfg k = enc_key cfg k' -> k = k') ->
   Forall (writer_started cfg) ws ->
   let f := fst (exec (fs_fresh cfg) ws sched) in
   good cfg f /\
